@@ -118,7 +118,13 @@ void splinetable<Alloc>::convolve(const uint32_t dim, const double* conv_knots, 
 	//space for the new ones. Most of the old knot data we still need, so we
 	//have to make temporary buffers for it.
 	
+	//Once the old arrays are gone a failed allocation must not leave their
+	//stale addresses behind (the destructor would release them a second time):
+	//null what is released, and if the replacement cannot be obtained give
+	//up the rest of the storage as well, leaving an empty table.
 	deallocate(this->coefficients,this->naxes[0]*this->strides[0]);
+	this->coefficients=nullptr;
+	storage_guard guard(this);
 	
 	std::unique_ptr<std::unique_ptr<double[]>[]> knots_store(new std::unique_ptr<double[]>[ndim]);
 	for (uint32_t i = 0; i < ndim; i++) {
@@ -128,6 +134,7 @@ void splinetable<Alloc>::convolve(const uint32_t dim, const double* conv_knots, 
 			std::copy(knots[i],knots[i]+nknots[i],knots_store[i].get());
 		}
 		deallocate(knots[i]-order[i],nknots[i]+2*order[i]);
+		knots[i]=nullptr;
 	}
 	
 	this->nknots[dim] = n_rho;
@@ -143,6 +150,7 @@ void splinetable<Alloc>::convolve(const uint32_t dim, const double* conv_knots, 
 		double* src = (i!=dim ? knots_store[i].get() : rho);
 		std::copy(src,src+nknots[i],&knots[i][0]);
 	}
+	guard.dismiss();
 	
 	/*
 	 * NB: A monotonic function remains monotonic after convolution
